@@ -435,7 +435,56 @@ impl Prop for C11 {
                 cx.nontrivial(crate::rt::prng::strhash(&text));
             }
             "ir-scale" => {
-                let nm = 32usize << (cx.n / 2);
+                // n = 100 * shape + 2 * size index + path; shapes: 0 many macros, 1 one BEGINEXT block of many words, 2 one macro with many pins,
+                // 3 many PROPERTYDEFINITIONS entries, 4 one very long comment line followed by an error
+                let (shape, k) = (cx.n / 100, cx.n % 100);
+                if shape > 0 {
+                    let n = 400usize << (k / 2);
+                    let mut text = String::from("VERSION 5.8 ;\n");
+                    match shape {
+                        1 => {
+                            text.push_str("BEGINEXT \"tag\"\n");
+                            for i in 0..n {
+                                text.push_str(&format!("word{} ", i % 977));
+                                if i % 16 == 15 {
+                                    text.push('\n');
+                                }
+                            }
+                            text.push_str("\nENDEXT\n");
+                        }
+                        2 => {
+                            text.push_str("MACRO wide\n  SIZE 1 BY 1 ;\n");
+                            for i in 0..n {
+                                text.push_str(&format!("  PIN p{}\n    DIRECTION INPUT ;\n  END p{}\n", i, i));
+                            }
+                            text.push_str("END wide\n");
+                        }
+                        3 => {
+                            text.push_str("PROPERTYDEFINITIONS\n");
+                            for i in 0..n {
+                                text.push_str(&format!("  MACRO prop{} INTEGER ;\n", i));
+                            }
+                            text.push_str("END PROPERTYDEFINITIONS\n");
+                        }
+                        _ => {
+                            text.push_str("# ");
+                            for i in 0..n * 8 {
+                                text.push(if i % 7 == 0 { 'é' } else { 'c' });
+                            }
+                            text.push('\n');
+                        }
+                    }
+                    text.push_str(if k % 2 == 1 || shape == 4 { "MACRO x PIN ;\n" } else { "END LIBRARY\n" });
+                    let path = cx.tmp("ir.lef");
+                    std::fs::write(&path, &text).expect("tmpfs write");
+                    cx.eval();
+                    let r = guard(|| LefLibrary::open(&path));
+                    let _ = std::fs::remove_file(&path);
+                    cx.count(match r { Ok(Ok(_)) => "ir_scale_accepted", Ok(Err(_)) => "ir_scale_rejected", Err(_) => "ir_scale_panicked" });
+                    cx.max("max.ir_scale_bytes", text.len() as u64);
+                    return;
+                }
+                let nm = 32usize << (k / 2);
                 let mut rng = Rng::new(0x1A5C); // the same macro at every size, independent of the seed
                 let cfg = LefCfg { max_macros: 1, max_pins: 2, ..Default::default() };
                 let mut g = rand_lef(&mut rng, &cfg);
@@ -446,7 +495,7 @@ impl Prop for C11 {
                 g.lib.no_wire_extension_at_pin = None;
                 for mm in g.lib.macros.iter_mut() { mm.source = None; }
                 let (mut text, _) = render(&g, &cfg, &mut rng, Style::plain());
-                if cx.n % 2 == 1 {
+                if k % 2 == 1 {
                     text.push_str(" MACRO x PIN ;");
                 }
                 let path = cx.tmp("ir.lef");
